@@ -36,6 +36,7 @@ type Config struct {
 	Stubs         []string
 	Outside       []string
 	NoNative      bool
+	NoYield       []string // scheduling-point kinds (prefix match) that are not pre-emption points
 	ExpectPanic   bool
 }
 
@@ -116,6 +117,7 @@ type Path struct {
 	wg       sync.WaitGroup
 	done     chan struct{}
 	racy     map[Ptr]bool
+	quietMu  map[Ptr]bool
 	mutexes  map[Ptr]*mutexState
 	wgs      map[Ptr]*wgState
 	sched    []string // schedule trace (thread ids at switch points)
